@@ -14,6 +14,8 @@ kind test (made *before* the ignore test), the children buffer, the final flush 
 
 The hand-off between the reading goroutine and the callback goroutine is in `Faithful/Lib/AccumQueue.lean`.
 -/
+set_option linter.unusedSimpArgs false
+
 namespace Accum
 
 abbrev Bytes := List UInt8
@@ -600,5 +602,37 @@ theorem go_shape (ig : List UInt8) (k : UInt8) (secs : List Sec) (off skip : Nat
               · exact ⟨_ :: p0, b, rfl, hb⟩
             · rw [h6]; simp [hp]
             · rw [h7]; simp [hp, List.filter_cons, hkeep]
+
+/-- reference grouping: cut a sequence of objects after every object of the flush kind; what is left at the end is
+    the final group without parent -/
+def splitAfter (k : UInt8) : List Obj → List Obj → List Group
+  | acc, [] => [⟨none, acc⟩]
+  | acc, o :: r => if o.kind = k then ⟨some o, acc⟩ :: splitAfter k [] r else splitAfter k (acc ++ [o]) r
+
+theorem go_split (ig : List UInt8) (k : UInt8) (secs : List Sec) (off skip : Nat) (cur : List Obj) :
+    go ig k secs off skip cur = splitAfter k cur (((objsFrom secs off).drop skip).filter (keep ig k)) := by
+  induction secs generalizing off skip cur with
+  | nil => simp [go, objsFrom, splitAfter]
+  | cons s r ih =>
+    cases skip with
+    | succ n => simp only [go, objsFrom, List.drop_succ_cons]; exact ih _ _ _
+    | zero =>
+      simp only [go, objsFrom, List.drop_zero]
+      by_cases hk : kindOf s.data = k
+      · have hkeep : keep ig k ⟨s.cid, off, s.secLen, s.data⟩ = true := by simp [keep, Obj.kind, hk]
+        have hko : (⟨s.cid, off, s.secLen, s.data⟩ : Obj).kind = k := by simp [Obj.kind, hk]
+        rw [if_pos hk, List.filter_cons_of_pos hkeep, splitAfter, if_pos hko, ih]
+        simp
+      · rw [if_neg hk]
+        have hko : ¬ (⟨s.cid, off, s.secLen, s.data⟩ : Obj).kind = k := by simp [Obj.kind, hk]
+        by_cases hi : ignored ig (kindOf s.data) = true
+        · have hkeep : ¬ keep ig k ⟨s.cid, off, s.secLen, s.data⟩ = true := by simp [keep, Obj.kind, hk, hi]
+          rw [if_pos hi, List.filter_cons_of_neg hkeep, ih]
+          simp
+        · have hkeep : keep ig k ⟨s.cid, off, s.secLen, s.data⟩ = true := by
+            simp only [Bool.not_eq_true] at hi
+            simp [keep, Obj.kind, hi]
+          rw [if_neg hi, List.filter_cons_of_pos hkeep, splitAfter, if_neg hko, ih]
+          simp
 
 end Accum
